@@ -158,6 +158,18 @@ func families(run *vk.Run) []*family {
 			return 0
 		}, "base3"),
 	}
+	// the same protected coordinate served by two different subgraphs in one
+	// operation: User.name is additionally resolvable (@shareable) in subgraph 1,
+	// which owns Query.users and Product
+	shared := fedlab.ByType(core, 2, func(r fedlab.FieldRef) int {
+		if r.Type == "Product" || r.Field == "topProducts" || r.Field == "reviews" || r.Field == "users" {
+			return 1
+		}
+		return 0
+	}, "base2+sharedname")
+	shared.Shared[fedlab.FieldRef{Type: "User", Field: "name"}] = []int{1}
+	shared.Shared[fedlab.FieldRef{Type: "User", Field: "nick"}] = []int{1}
+	fc.layouts = append(fc.layouts, shared)
 	menu := func(t, f string) [][]fedlab.ArgUse {
 		switch t + "." + f {
 		case "Query.user":
@@ -169,6 +181,9 @@ func families(run *vk.Run) []*family {
 	}
 	fc.ops = fedlab.GenOps(fedlab.GenConfig{Schema: fc.schema, Widths: vk.Pick(run, []int{1, 2, 1}, []int{1, 2, 2}), ArgMenu: menu}, "query")
 	fc.ops = append(fc.ops, fedlab.GenOps(fedlab.GenConfig{Schema: fc.schema, Widths: []int{1, 2, 1}, ArgMenu: menu}, "mutation")...)
+	for _, q := range []string{`{me {name} users {name}}`, `{me {nick name} topProducts {seller {name nick}}}`, `{users {name} me {friends {name}}}`, `{me {name reviews {author {name}}}}`} {
+		fc.ops = append(fc.ops, &fedlab.Op{Kind: "query", Raw: q})
+	}
 
 	fa := &family{name: "S-abs", s: abs, u: fedlab.SAbsUniverse(abs), schema: mustSchema(abs.SDL()),
 		protected: [][]string{{"Author.name"}, {"Book.title"}, {"Media.title", "Clip.title", "Post.title"}, {"Post.text"}, {"Author.books"}, {"Query.search"}}}
@@ -441,13 +456,14 @@ func TestCheck(t *testing.T) {
 	run.Bound("max_protected_groups", maxP)
 	var caseNo int64
 	type replayIn struct {
-		Family string   `json:"family"`
-		Layout []int    `json:"layout"`
-		N      int      `json:"n"`
-		Prot   []string `json:"protected"`
-		Deny   []string `json:"deny"`
-		Mode   string   `json:"mode"`
-		Op     string   `json:"op"`
+		Family     string   `json:"family"`
+		Layout     []int    `json:"layout"`
+		LayoutName string   `json:"layout_name"`
+		N          int      `json:"n"`
+		Prot       []string `json:"protected"`
+		Deny       []string `json:"deny"`
+		Mode       string   `json:"mode"`
+		Op         string   `json:"op"`
 	}
 	var rin *replayIn
 	if run.Replay != "" {
@@ -465,7 +481,7 @@ func TestCheck(t *testing.T) {
 					prot = append(prot, f0.protected[gi]...)
 				}
 				if rin != nil {
-					if rin.Family != f0.name || fmt.Sprint(rin.Layout) != fmt.Sprint(l.OwnerVector()) || strings.Join(rin.Prot, ",") != strings.Join(prot, ",") {
+					if rin.Family != f0.name || fmt.Sprint(rin.Layout) != fmt.Sprint(l.OwnerVector()) || (rin.LayoutName != "" && rin.LayoutName != l.Name) || strings.Join(rin.Prot, ",") != strings.Join(prot, ",") {
 						continue
 					}
 				}
@@ -490,7 +506,11 @@ func TestCheck(t *testing.T) {
 					parts := strings.SplitN(c, ".", 2)
 					fcs = append(fcs, plan.FieldConfiguration{TypeName: parts[0], FieldName: parts[1], HasAuthorizationRule: true})
 				}
-				lab, err := fedlab.NewLab(fedlab.NewLayout(f.s, l.N, l.OwnerVector(), l.Name), f.u, fedlab.LabOptions{Fields: fcs})
+				ll := fedlab.NewLayout(f.s, l.N, l.OwnerVector(), l.Name)
+				for k, v := range l.Shared {
+					ll.Shared[k] = v
+				}
+				lab, err := fedlab.NewLab(ll, f.u, fedlab.LabOptions{Fields: fcs})
 				if err != nil {
 					t.Fatalf("lab: %v", err)
 				}
@@ -541,7 +561,7 @@ func TestCheck(t *testing.T) {
 								}
 								run.Violate(vk.Violation{Clause: fl.clause, Site: fl.site, Class: mode + " / " + involved(fl.site+" "+firstLines(fl.detail, 1), dl),
 									Detail: fmt.Sprintf("layout %s\noperation %s\nprotected %v\ndeny %v\nmode %s\n%s", l.String(), q, prot, dl, mode, fl.detail),
-									Input:  map[string]any{"family": f.name, "layout": l.OwnerVector(), "n": l.N, "protected": prot, "deny": dl, "mode": mode, "op": q}})
+									Input:  map[string]any{"family": f.name, "layout": l.OwnerVector(), "n": l.N, "layout_name": l.Name, "protected": prot, "deny": dl, "mode": mode, "op": q}})
 							}
 						}
 					}
